@@ -1,10 +1,10 @@
 #!/bin/bash
-# usage: seed_eval.sh <prop> <seed_out dir> <module> <pkg rel to module> <demo file name in pkg> <run regex>
+# usage: seed_eval.sh <prop> <seed_out dir> <module> <pkg rel to module> <demo file name in pkg> <run regex> [existing-test packages]
 # Confirms a seeded change in a scratch worktree (outside /repo and /verif):
 #   existing package tests pass with the patch, the demo fails with it and passes without it,
 # then runs the registered check of <prop> against the patched tree.
 set -u
-P=$1; S=$2; MOD=$3; PKG=$4; DEMO=$5; RUN=$6
+P=$1; S=$2; MOD=$3; PKG=$4; DEMO=$5; RUN=$6; TESTPKGS=${7:-./$PKG/}
 export PATH=/opt/veriftools/go1.26.8/bin:$PATH GOTOOLCHAIN=local GOWORK=off GOFLAGS=-mod=mod GOPROXY=off
 WT=/tmp/seedeval_$P
 git -C /repo worktree remove --force $WT >/dev/null 2>&1
@@ -19,7 +19,7 @@ echo "== demo WITH patch (expect FAIL)"
 (cd $MOD && go test -count=1 -run "$RUN" ./$PKG/ 2>&1 | tail -4)
 rm $MOD/$PKG/$DEMO
 echo "== existing tests WITH patch (expect pass)"
-(cd $MOD && go test -count=1 ./$PKG/ 2>&1 | tail -3)
+(cd $MOD && go test -count=1 $TESTPKGS 2>&1 | tail -4)
 echo "== check $P against the patched tree"
 (cd /verif && ./bin/gosmt -prop $P -repo $WT -noevidence 2>&1 | grep -v "^    " | grep "VIOLATION\|RESULT\|UNCONFIRMED\|INCOMPLETE\|harness=" | head -12)
 cd /; git -C /repo worktree remove --force $WT
